@@ -118,7 +118,7 @@ def check_csv_file(case):
             raise Violation(f"csv-file:raises:{type(e).__name__}", repr(e))
     if zero and not case["discard"]:
         raise Violation("csv-file:zero-length-row-not-rejected", f"rows {zero[:2]}")
-    expect(c, expected, "csv-file")
+    expect(c, expected, "csv-file", annotators={x[0] for x in expected})
     return {"nontrivial": bool(zero) or delim != ",", "classes": classes}
 
 
@@ -162,6 +162,16 @@ def check_textgrid(case):
                 for p, mark in tier["points"]:
                     t.add(p, mark)
             tg.append(t)
+        if case.get("rewrite"):
+            # history: ANOTHER file was read from the same path earlier in this process
+            old = tgl.TextGrid(minTime=0.0, maxTime=50.0)
+            t0 = tgl.IntervalTier(name=case["tiers"][0]["name"], minTime=0.0, maxTime=50.0)
+            t0.add(1.0, 2.0, "old-content")
+            t0.add(40.0, 41.5, "old-content-2")
+            old.append(t0)
+            old.write(path)
+            c_old = pa.Continuum()
+            c_old.add_textgrid(case["annotator"], path)
         tg.write(path)
         interval_names = [t["name"] for t in case["tiers"] if t["kind"] == "interval"]
         sel = case["selected"]
@@ -201,6 +211,15 @@ def check_elan(case):
                 eaf.add_tier(tier["name"])
                 for s, e, v in tier["annotations"]:
                     eaf.add_annotation(tier["name"], s, e, v)
+            if case.get("rewrite"):
+                old = pympi.Eaf()
+                old.remove_tier("default")
+                old.add_tier(case["tiers"][0]["name"])
+                old.add_annotation(case["tiers"][0]["name"], 10, 999, "old-content")
+                old.to_file(path)
+                c_old = pa.Continuum()
+                c_old.add_elan(case["annotator"], path)
+                os.remove(path)
             eaf.to_file(path)
             c = pa.Continuum()
             lib_call("add_elan", c.add_elan, case["annotator"], path, selected_tiers=case["selected"], use_tier_as_annotation=case["tier_as_label"])
@@ -309,7 +328,7 @@ def textgrid_cases(draw):
     if draw(st.booleans()):
         sel = draw(st.lists(st.sampled_from(interval_names + ["absent-tier"]), unique=True, max_size=3)) if interval_names else ["absent-tier"]
     return {"tiers": tiers, "max_time": tmax + 1.0, "annotator": draw(st.sampled_from(["Robin", "ann 1", "é"])),
-            "selected": sel, "tier_as_label": draw(st.booleans())}
+            "selected": sel, "tier_as_label": draw(st.booleans()), "rewrite": draw(st.booleans())}
 
 
 VALUE = st.one_of(st.sampled_from(["a", "x < y", "R&D", '"q"', "l'été", "日本", "a b", "<tag>"]),
@@ -332,7 +351,8 @@ def elan_cases(draw):
     sel = None
     if draw(st.booleans()):
         sel = draw(st.lists(st.sampled_from(names + ["absent-tier"]), unique=True, max_size=3))
-    return {"tiers": tiers, "annotator": draw(st.sampled_from(["Robin", "ann 1", "é"])), "selected": sel, "tier_as_label": draw(st.booleans())}
+    return {"tiers": tiers, "annotator": draw(st.sampled_from(["Robin", "ann 1", "é"])), "selected": sel, "tier_as_label": draw(st.booleans()),
+            "rewrite": draw(st.booleans())}
 
 
 def subchecks(tier):
